@@ -100,6 +100,8 @@ def cases(tier):
                 out.append((fi, pat, a, False, False))
                 if a == "drop" and pat:
                     out.append((fi, pat, a, True, False))  # same, under an index with repeated labels
+                if a in ("drop", "error") and pat and pi % 5 == 2:
+                    out.append((fi, pat, a, "multi", False))  # same, under a two-level row index
                     if pi % 4 == 1:
                         out.append((fi, pat, a, False, True))  # same, on a frame that has exactly the used columns
     # frames of BIG rows: a missing value in the very last rows / just after row 4096
@@ -152,7 +154,9 @@ def harness(env, case):
     for c in COLS_NUM:
         cols[c] = env.column(c.replace(" ", "_"), N)
     clean = env.frame({**cols, **{k: (v * (N // len(v) + 1))[:N] for k, v in COLS_CAT.items()}})
-    if dupindex:
+    if dupindex == "multi":
+        clean.index = pd.MultiIndex.from_tuples([(f"s{i // 2}", i % 2) for i in range(N)], names=["subject", "visit"])
+    elif dupindex:
         clean.index = [i // 2 for i in range(N)]
     dirty = clean.copy()
     for c, r in pat:
